@@ -325,6 +325,17 @@ pub fn run(cfg: &Cfg, rep: &mut Report) {
                         ("named_backreference", mk("^(?<n>", &la, ")\\k<n>$"), two.clone(), true),
                         ("class_range", mk("^[", &[a, '-' as u32, a], "]$"), cb.to_string(), true),
                     ];
+                    let mut cases = cases;
+                    if flags.v {
+                        // class strings are compared by canonical form as well, also inside && and --
+                        let mut lb = Vec::new();
+                        lit(b, &mut lb);
+                        let join = |parts: &[&[u32]]| -> Vec<u32> { parts.iter().flat_map(|p| p.iter().copied()).collect() };
+                        let c = |s: &str| -> Vec<u32> { s.chars().map(|c| c as u32).collect() };
+                        cases.push(("class_string", join(&[&c("^[\\q{"), &la, &c("0}]$")]), format!("{}0", cb), true));
+                        cases.push(("class_string_intersection", join(&[&c("^[\\q{"), &la, &c("0}&&\\q{"), &lb, &c("0}]$")]), format!("{}0", ca), true));
+                        cases.push(("class_string_subtraction", join(&[&c("^[\\q{"), &la, &c("0|zz}--\\q{"), &lb, &c("0}]$")]), format!("{}0", ca), false));
+                    }
                     for (name, pat, hay, want) in cases {
                         let hh = fnv64(format!("{}|{}|{}|{}|{}", name, mname, a, b, hay).as_bytes());
                         if name == "class_range" && matches!(ca, '\\' | ']' | '^' | '-' | '[') {
